@@ -36,12 +36,17 @@ type RS struct {
 	Var int  `json:"var"`
 	Nil bool `json:"nil,omitempty"`
 	Idx int  `json:"idx"` // unique index (becomes the rule id)
+	// Tw perturbs one field that does not affect validity or probe decisions (queueing time, burst,
+	// retry timeout ...): a reload that changes only that field must still replace the rule.
+	Tw int `json:"tw,omitempty"`
 }
 
 // ID encodes the rule's content class (module, resource, variant) and its table index. Rule
 // managers reuse the controller (and the rule object) of an earlier load for a rule that is
 // field-for-field identical, so reported rules are compared by content class, see Sig.
-func (r RS) ID() string { return fmt.Sprintf("%s/r%d/v%d#%d", ModuleName[r.M], r.Res, r.Var, r.Idx) }
+func (r RS) ID() string {
+	return fmt.Sprintf("%s/r%d/v%d/t%d#%d", ModuleName[r.M], r.Res, r.Var, r.Tw, r.Idx)
+}
 
 // Sig strips the table index from a rule id.
 func Sig(id string) string {
@@ -76,7 +81,7 @@ func BuildFlow(r RS) *flow.Rule {
 	if r.Nil {
 		return nil
 	}
-	x := &flow.Rule{ID: r.ID(), Resource: ResName(r.Res), TokenCalculateStrategy: flow.Direct, ControlBehavior: flow.Reject, Threshold: 1e9}
+	x := &flow.Rule{ID: r.ID(), Resource: ResName(r.Res), TokenCalculateStrategy: flow.Direct, ControlBehavior: flow.Reject, Threshold: 1e9, MaxQueueingTimeMs: uint32(r.Tw) * 10}
 	switch r.Var {
 	case 1:
 		x.Threshold = 0
@@ -111,10 +116,10 @@ func BuildIsolation(r RS) *isolation.Rule {
 	if r.Nil {
 		return nil
 	}
-	x := &isolation.Rule{ID: r.ID(), Resource: ResName(r.Res), MetricType: isolation.Concurrency, Threshold: 1000000}
+	x := &isolation.Rule{ID: r.ID(), Resource: ResName(r.Res), MetricType: isolation.Concurrency, Threshold: 1000000 + uint32(r.Tw)}
 	switch r.Var {
 	case 1:
-		x.Threshold = 2 // probes use batch 3
+		x.Threshold = 2 - uint32(r.Tw%2) // probes use batch 3
 	case 2:
 		x.Threshold = 0
 	case 3:
@@ -129,7 +134,7 @@ func BuildHotspot(r RS) *hotspot.Rule {
 	if r.Nil {
 		return nil
 	}
-	x := &hotspot.Rule{ID: r.ID(), Resource: ResName(r.Res), MetricType: hotspot.QPS, ControlBehavior: hotspot.Reject, ParamIndex: 0, Threshold: 1000000, DurationInSec: 1}
+	x := &hotspot.Rule{ID: r.ID(), Resource: ResName(r.Res), MetricType: hotspot.QPS, ControlBehavior: hotspot.Reject, ParamIndex: 0, Threshold: 1000000, DurationInSec: 1, ParamsMaxCapacity: int64(100 + r.Tw)}
 	switch r.Var {
 	case 1:
 		x.Threshold = 0
@@ -157,7 +162,7 @@ func BuildBreaker(r RS) *cb.Rule {
 	if r.Nil {
 		return nil
 	}
-	x := &cb.Rule{Id: r.ID(), Resource: ResName(r.Res), Strategy: cb.ErrorCount, RetryTimeoutMs: 3600000, MinRequestAmount: 1000000, StatIntervalMs: 10000, Threshold: 1000000}
+	x := &cb.Rule{Id: r.ID(), Resource: ResName(r.Res), Strategy: cb.ErrorCount, RetryTimeoutMs: 3600000 + uint32(r.Tw), MinRequestAmount: 1000000, StatIntervalMs: 10000, Threshold: 1000000}
 	switch r.Var {
 	case 1: // trips on the first failed completion (probes never fail, so it never trips there)
 		x.MinRequestAmount, x.Threshold = 0, 1
@@ -183,7 +188,7 @@ func BuildSystem(r RS) *system.Rule {
 	if r.Nil {
 		return nil
 	}
-	x := &system.Rule{ID: r.ID(), MetricType: system.Concurrency, TriggerCount: 1e9, Strategy: system.NoAdaptive}
+	x := &system.Rule{ID: r.ID(), MetricType: system.Concurrency, TriggerCount: 1e9 + float64(r.Tw), Strategy: system.NoAdaptive}
 	switch r.Var {
 	case 1:
 		x.TriggerCount = 0
@@ -202,7 +207,7 @@ func BuildOutlier(r RS) *outlier.Rule {
 		return nil
 	}
 	x := &outlier.Rule{Rule: &cb.Rule{Id: r.ID(), Resource: ResName(r.Res), Strategy: cb.ErrorCount, RetryTimeoutMs: 1000, MinRequestAmount: 1, StatIntervalMs: 1000, Threshold: 1},
-		MaxEjectionPercent: 0.5, RecoveryIntervalMs: 1000, MaxRecoveryAttempts: 3}
+		MaxEjectionPercent: 0.5, RecoveryIntervalMs: 1000 + uint32(r.Tw), MaxRecoveryAttempts: 3}
 	switch r.Var {
 	case 1:
 		x.MaxEjectionPercent = 1
